@@ -5,6 +5,7 @@
 package mockreg
 
 import (
+	"bytes"
 	"encoding/json"
 	"flag"
 	"fmt"
@@ -26,6 +27,8 @@ import (
 	"verifharness/gen"
 	"verifharness/model"
 	"verifharness/stats"
+
+	dt "verifharness/dertree"
 )
 
 var allSources = []lint.LintSource{lint.RFC3279, lint.RFC5280, lint.RFC5480, lint.RFC5891, lint.RFC6960, lint.RFC6962, lint.RFC8813, lint.CABFBaselineRequirements,
@@ -421,6 +424,40 @@ func judge(rec *stats.Rec, c mockCase, prop string) (string, string) {
 			}
 			if rs1 != nil && rs != nil && rs1.Results[ms.Name] != nil && rs.Results[ms.Name] != nil && rs1.Results[ms.Name].Status != rs.Results[ms.Name].Status {
 				return "second-run-status|" + string(c.Kind), fmt.Sprintf("%s: %s on the first run, %s on the second", ms.Name, rs1.Results[ms.Name].Status, rs.Results[ms.Name].Status)
+			}
+		}
+	}
+	// C09: the same to-be-signed certificate under other signature bits - every result identical, the
+	// framework's own results (configuration errors, recovered panics) included
+	if prop == "C09" && c.Kind == gen.Cert && panicked1 == "" && rs1 != nil && !bytes.Equal(cert.RawIssuer, cert.RawSubject) {
+		if v, err := gen.ViewCert(c.DER); err == nil {
+			b := append([]byte{}, v.Signature().Body()...)
+			for i := 1; i < len(b); i++ {
+				b[i] ^= byte(0x5a + i)
+			}
+			v.Root.Children[2] = dt.Prim(0, 3, b)
+			if twin, ok := gen.ParseCert(v.DER()); ok && bytes.Equal(twin.RawTBSCertificate, cert.RawTBSCertificate) {
+				orig := cert
+				cert = twin
+				rs, panicked = nil, ""
+				lintOnce()
+				cert = orig
+				if panicked != "" {
+					return "panic-escapes|cert", "Lint*Ex panicked on the re-signed twin: " + panicked
+				}
+				for _, ms := range c.Mocks {
+					a, b2 := rs1.Results[ms.Name], (*lint.LintResult)(nil)
+					if rs != nil {
+						b2 = rs.Results[ms.Name]
+					}
+					if a == nil || b2 == nil {
+						continue
+					}
+					if a.Status != b2.Status || a.Details != b2.Details {
+						return "signature-dependent|" + a.Status.String(), fmt.Sprintf("%s: %s %q with the original signature bits, %s %q with others (same tbsCertificate)", ms.Name, a.Status, a.Details, b2.Status, b2.Details)
+					}
+				}
+				rec.Class("c09_twin_compared")
 			}
 		}
 	}
